@@ -246,6 +246,66 @@ def hook_part(ctx, n_docs):
     return n
 
 
+FOOTER = "\n[bar]: /u\n[baz]: /v 'T'\n\n*[HTML]: Hyper Text\n*[W3C]: Consortium\n"
+
+
+def history_docs(rng):
+    """documents for ONE converter: the same headings with the definitions present, absent and changed, and unrelated ones --
+    an entry must show the heading text of ITS document, whatever the converter rendered before"""
+    base = heading_doc(rng)
+    assert base.endswith(FOOTER)
+    body = base[:-len(FOOTER)]
+    forced = rng.choice(["# [baz]\n\n", "## see [foo][bar]\n\n", "# the HTML of W3C\n\n", "[baz] title\n===\n\n"])
+    body = forced + body
+    variants = [body + FOOTER, body + "\n", body + "\n[bar]: /other\n[baz]: /w\n\n*[HTML]: Other Words\n", body + "\n[baz]: /v\n\n*[W3C]: Else\n",
+                heading_doc(rng), body + FOOTER]
+    rng.shuffle(variants)
+    return variants[:rng.randint(2, 6)]
+
+
+def history_part(ctx, n_hist):
+    """hook and directive on a converter that is reused for several documents"""
+    import mistune
+    from mistune.toc import add_toc_hook
+    from mistune.directives import FencedDirective, RSTDirective, TableOfContents
+    n = 0
+    for _ in range(n_hist):
+        docs = history_docs(ctx.rng)
+        lo = ctx.rng.randint(1, 2); hi = ctx.rng.randint(max(lo, 2), 6)
+        esc = ctx.rng.random() < 0.7
+        mode = ctx.rng.choice(["hook", "hook", "fenced", "rst"])
+        if mode == "hook":
+            md = mistune.create_markdown(escape=esc, plugins=HEAD_PLUGINS)
+            add_toc_hook(md, lo, hi)
+        else:
+            esc = True
+            d = FencedDirective([TableOfContents()]) if mode == "fenced" else RSTDirective([TableOfContents()])
+            md = mistune.create_markdown(escape=True, plugins=HEAD_PLUGINS + [d])
+        for j, doc in enumerate(docs):
+            rep = {"kind": "history", "mode": mode, "docs": docs[:j + 1], "min": lo, "max": hi, "escape": esc}
+            try:
+                if mode == "hook":
+                    html, state = md.parse(doc)
+                    got = [(x[0], x[1], x[2].strip()) for x in state.env.get("toc_items", [])]
+                    exp, _ = expected_items(doc, lo, hi, escape=esc)
+                else:
+                    head = ("```{toc}\n:min-level: %d\n:max-level: %d\n```\n\n" if mode == "fenced" else ".. toc::\n   :min-level: %d\n   :max-level: %d\n\n") % (lo, min(hi, 3))
+                    html = md(head + doc)
+                    blk = re.findall(r'<details class="toc"[^>]*>\n<summary>.*?</summary>\n(.*?)</details>\n', html, re.S)
+                    exp, _ = expected_items(doc, lo, min(hi, 3), all_ids=True)
+                    got = [(l, a, b.strip()) for (l, _, _), (a, b) in zip(exp, re.findall(r'<a href="#([^"]*)">(.*?)</a>', blk[0] if blk else "", re.S))]
+                    if blk and len(re.findall(r'<a href="#', blk[0])) != len(exp):
+                        got = got + [("count", len(re.findall(r'<a href="#', blk[0])), "")]
+            except Exception as e:
+                ctx.fail("toc-history:exception", "document %d of a history on one converter (%s) raised %r" % (j + 1, mode, e), rep)
+                break
+            n += 1
+            if got != exp:
+                ctx.fail("toc-history:items", "document %d rendered by a converter (%s) that rendered %d document(s) before: entries %r differ from its own headings %r" % (j + 1, mode, j, got, exp), rep)
+                break
+    return n
+
+
 def directive_part(ctx, n_docs):
     import mistune
     from mistune.directives import FencedDirective, RSTDirective, TableOfContents
@@ -358,13 +418,15 @@ def run(ctx):
     nh = hook_part(ctx, 400 if ctx.quick() else 4000)
     nd = directive_part(ctx, 300 if ctx.quick() else 3000)
     nd += include_part(ctx)
+    nhist = history_part(ctx, 120 if ctx.quick() else 1500)
     if ctx.broken and not ctx.failures:
         ctx.notes.append("search mode entered")
         toc_list_part(ctx, level_seqs(ctx, big=True))
         nh += hook_part(ctx, 5000)
         nd += directive_part(ctx, 4000)
     ctx.cov.update({
-        "evaluations": len(seqs) + nh + nd,
+        "evaluations": len(seqs) + nh + nd + nhist,
+        "history_documents": nhist,
         "distinct_nontrivial": len(set(tuple(s) for s in seqs if len(set(s)) > 1)),
         "rule": "ALL level sequences over 1..6 up to length %d (exhaustive) + seeded long random sequences/walks (levels may leave 1..6) for render_toc_ul, "
                 "model vs implementation string-exact and an independent html.parser nesting oracle; %d hook documents and %d directive documents against an independent "
